@@ -31,6 +31,15 @@ ghostvar gl int
 ghostvar ga seq
 ghostvar gm int
 ghostvar gov int
+ghostvar gu0 int
+ghostvar gi5 int
+-- number of base-b digits of u (specification function; its defining equations and the bound 64 for 64-bit
+-- values are mathematical facts taken as axioms)
+assume pure func nd(b int, u int) (n int)
+  requires b >= 2 && 0 <= u && u <= 9223372036854775807 * 2 + 1
+  ensures 1 <= n && n <= 64
+  ensures u < b ==> n == 1
+  ensures u >= b ==> n == 1 + nd(b, u / b)
 pred AsAt(p *pp) = p.buf.mode == gm && p.override == gov && p.buf.gctx == gov
 
 -- printer invariant
@@ -241,16 +250,23 @@ func (f *fmt) fmtUnicode(u uint64)
   ensures inv(f.buf) && BK(f.buf) && FK(f)
 
 func (f *fmt) fmtInteger(u uint64, base int, isSigned bool, verb rune, digits string)
-  nosweep
   requires f.buf != nil && inv(f.buf) && f.buf.mode != SafeRaw && WP(f)
+  requires [C11] (base == 10 || base == 16 || base == 8 || base == 2) && len(digits) >= 17 && (verb == 79 ==> base == 8)
   requires [C02] S1(f.buf, 2)
   requires [C06] S2(f.buf)
   requires [C05,C06] S3(f.buf)
+  ghost gu0 = u before "buf := f.intbuf[0:]"
+  ghost gi5 = i after "buf[i] = digits[u]"
   loop 1 invariant memKeptExcept(f.intbuf)
   loop 2 invariant memKeptExcept(f.intbuf)
   loop 3 invariant memKeptExcept(f.intbuf)
   loop 4 invariant memKeptExcept(f.intbuf)
   loop 5 invariant memKeptExcept(f.intbuf)
+  loop 1 invariant [C11] 0 <= u && u <= gu0 && 0 <= i && i <= len(buf) && len(buf) - i + nd(10, u) == nd(10, gu0)
+  loop 2 invariant [C11] 0 <= u && u <= gu0 && 0 <= i && i <= len(buf) && len(buf) - i + nd(16, u) == nd(16, gu0)
+  loop 3 invariant [C11] 0 <= u && u <= gu0 && 0 <= i && i <= len(buf) && len(buf) - i + nd(8, u) == nd(8, gu0)
+  loop 4 invariant [C11] 0 <= u && u <= gu0 && 0 <= i && i <= len(buf) && len(buf) - i + nd(2, u) == nd(2, gu0)
+  loop 5 invariant [C11] 0 <= i && i <= gi5 && i < len(buf) && (i == gi5 || (i >= len(buf) - prec && buf[i] == 48))
   modifies f, f.buf
   ensures inv(f.buf) && BK(f.buf) && FK(f)
 
